@@ -68,6 +68,7 @@ func genC06(t *rapid.T, prop string) *LCase {
 		}
 	}
 	c.Procs = rapid.SampledFrom([]int{0, 1, 2, 4, 16}).Draw(t, "procs")
+	genOverflow(t, c)
 	return c
 }
 
@@ -144,9 +145,16 @@ func runC06(c *LCase) (r c06Result) {
 	for _, s := range c.Reach {
 		w.FsOp(s)
 	}
+	if c.Overflow > 0 {
+		overflowBurst("d0", c.Overflow)
+		r.feats = append(r.feats, "close-with-error-pending")
+	}
 	pending, _ := engine.Fionread(w.Wfd)
 	if cons == nil {
 		cons = startConsumer(w.W, c.Consumer, c.StopAfter)
+	}
+	if c.Overflow > 0 && (c.Consumer == "events" || c.Consumer == "stop") {
+		waitParkedInSendError()
 	}
 	halted := false
 	defer func() {
